@@ -8,7 +8,9 @@ P = real Continuous / ContinuousJsrun after its real __init__/_initialize/
 C = fork-like copy of P with its own mutable state but the SAME queue objects,
     running the real `_schedule_tasks()` loop in a baton-passing thread.
 """
+import os
 import re
+import json
 import copy
 import math
 import threading
@@ -162,7 +164,8 @@ class SchedSim(object):
 
     MAX_SETTLE = 4000
 
-    def __init__(self, layout, cls='continuous', scattered=True, session=None, baton=None):
+    def __init__(self, layout, cls='continuous', scattered=True, session=None, baton=None,
+                 reconfig=None):
         self.problems = []          # (property, signature, message)
         self.stats    = {'grants': 0, 'grants_shared_node': 0, 'waited': 0,
                          'canceled_waiting': 0, 'failed_unsched': 0,
@@ -203,6 +206,17 @@ class SchedSim(object):
         klass = ContinuousJsrun if self.jsrun else Continuous
         cfg = comp_cfg(self.sess, 'agent_scheduling.0000', pid='pilot.0000',
                        kind='agent_scheduling')
+        self.reconfig = None
+        if cls == 'reconfig':
+            from radical.pilot.agent.scheduler.continuous_reconfig import ContinuousReconfig
+            klass = ContinuousReconfig
+            self.reconfig = {k: v for k, v in (reconfig or {}).items()
+                             if k in ('ranks', 'cores_per_rank') and v is not None}
+            path = os.path.join(boot.case_dir('reconfig'), 'task_reqs.json')
+            with open(path, 'w') as f:
+                json.dump(self.reconfig, f)
+            cfg.reconfig_src = path
+            self.labels.add('reconfig_scheduler')
         P = klass(cfg, self.sess)
         P._initialize()                       # real base + real initialize()
         self.P = P
@@ -825,6 +839,12 @@ class SchedSim(object):
         for spec in specs:
             uid, task, tdd = self.mk_task(spec)
             sp = dict(spec)
+            if self.reconfig:
+                # what the scheduler is told to make of every incoming task
+                tdd = dict(tdd)
+                for k, v in self.reconfig.items():
+                    tdd[k] = int(v)
+                    sp[k]  = int(v)
             sp['td'] = tdd
             if tdd['ranks'] <= 0:
                 sp['bad_ranks'] = True
@@ -1060,7 +1080,7 @@ class SchedSim(object):
 def run_history(case):
     """interpret a plain-data history; returns the finished SchedSim"""
     sim = SchedSim(case['layout'], cls=case.get('cls', 'continuous'),
-                   scattered=case.get('scattered', True))
+                   scattered=case.get('scattered', True), reconfig=case.get('reconfig'))
     try:
         for op in case.get('ops', []):
             kind = op[0]
